@@ -47,6 +47,7 @@ def parseOp (toks : List String) : Option (Op K V) :=
   | ["get", k] => some (.get k)
   | ["has", k] => some (.has k)
   | ["iter", lo, hi, asc] => some (.iter (optTok lo) (optTok hi) (asc == "1"))
+  | ["itera", lo, hi, asc] => some (.iterAll (optTok lo) (optTok hi) (asc == "1"))
   | ["begin"] => some .begin
   | ["csess"] => some .csess
   | ["dsess"] => some .dsess
